@@ -305,6 +305,8 @@ class SimFS:
             return
         if s in self.dirs and d.startswith(s + "/"):
             raise oserror("EINVAL", src)
+        if s.startswith(d + "/") and (s in self.files or s in self.dirs):
+            raise oserror("ENOTEMPTY", dst)     # target is an ancestor
         if s in self.files:
             if d in self.dirs:
                 raise oserror("EISDIR", dst)
